@@ -200,6 +200,18 @@ KERNELS += [
          c_header="int K_rda_ax_offset(const int num_rings, const float m_off, const float ring_spacing)", loops=0,
          rules=[(r"ax_pos_num_offset\[segment_num\] = round\(", "const int K_o = K_round_value(", 1), (r"m_offset\[segment_num\]", "m_off", 1)],
          post="return K_o;"),
+    dict(name="K_rda_fill_rd2seg", file=CYL_CXX, cxx_name="initialise_ring_diff_arrays: block 'initialise ring_diff_to_segment_num' (statement kernel)", func=RDA,
+         span=(r"const int min_ring_difference = \*min_element\(", r'does not belong to a segment"\) % ring_diff\);\s*\}\s*\}'),
+         c_header="void K_rda_fill_rd2seg(const struct PDI2* self)", loops=2,
+         rules=[(r"\*min_element\(min_ring_diff\.begin\(\), min_ring_diff\.end\(\)\)", "K_min_rd(self)", 1),
+                (r"\*max_element\(max_ring_diff\.begin\(\), max_ring_diff\.end\(\)\)", "K_max_rd(self)", 1),
+                (r"get_scanner_ptr\(\)->get_num_rings\(\)", "self->num_rings", 2),
+                (r"ring_diff_to_segment_num = VectorWithOffset<int>\(min\(([^;]*?)\),\s*max\(([^;]*?)\)\);", r"RD2SEG_ALLOC(K_min_int(\1), K_max_int(\2));", 1),
+                (r"ring_diff_to_segment_num\.fill\(get_max_segment_num\(\) \+ 1\);", "RD2SEG_FILL(self->max_seg + 1);", 1),
+                (r"ring_diff_to_segment_num\[ring_diff\] = segment_num;", "RD2SEG_WRITE(ring_diff, segment_num);", 1),
+                (r"warning\(boost::format\([^;]*;", "(void)0;", 1),
+                (r"get_(min|max)_segment_num\(\)", r"self->\1_seg", 3),
+                (r"(?<![\w>.])(min|max)_ring_diff\[(\w+)\]", r"SEGV(self, \1_ring_diff, \2)", 2)]),
     dict(name="K_rda_rpr", file=CYL_CXX, cxx_name="initialise_ring_diff_arrays: ring1_plus_ring2 statements", func=RDA,
          span=(r"const float ring1_plus_ring2_float = ", r"const int ring1_plus_ring2 = [^;]*;"),
          c_header="int K_rda_rpr(const int ax_pos_num, const int inc, const float m_off, const float ring_spacing, const int num_rings)", loops=0,
@@ -347,6 +359,14 @@ def jobs(tier, gen_dir):
     for F in TOF_MASH[tier]:
         enforce("K_get_bin_for_det_pos_pair", "/N=16/F=%d" % F, lc=False, repl=["K_get_bin_for_det_pair"], defines={"C01_N": 16, "C01_F": F},
                 params={"num_detectors_per_ring": 16, "tof_mash_factor": F}, backend=os.environ.get("C01_FB", "sat"))
+    enforce("K_rda_fill_rd2seg", repl=["K_min_rd", "K_max_rd"])
+    out.append(Job("c01/lemma_rd2seg", HARNESS, "h_lemma_rd2seg", kind="lemma", kernels=["K_rda_fill_rd2seg"], replace=["K_rda_fill_rd2seg"], flags=CHK, no_base_flags=True,
+                   min_obligations=3, timeout=300, backend="kissat"))
+    out.append(Job("c01/canary/K_rda_fill_rd2seg", HARNESS, "h_K_rda_fill_rd2seg", enforce="K_rda_fill_rd2seg", replace=["K_min_rd", "K_max_rd"], kernels=["K_rda_fill_rd2seg"],
+                   kind="canary", loop_contracts=True, defines={"CANARY_K_rda_fill_rd2seg": None}, expect_fail=r"K_rda_fill_rd2seg\.postcondition", no_base_flags=True,
+                   timeout=300, backend="kissat"))
+    out.append(Job("c01/canary/lemma_rd2seg", HARNESS, "h_lemma_rd2seg", kind="canary", kernels=[], replace=["K_rda_fill_rd2seg"], defines={"LEMMA_CANARY": None}, flags=[],
+                   no_base_flags=True, expect_fail=r"vacuity canary", timeout=300, backend="kissat"))
     enforce("K_round_float", lc=False, backend="sat", flags=CHK + ["--float-overflow-check", "--nan-check"])
     # symbolic N (all even N up to C01_NMAX in one proof)
     enforce("K_init_vt2d", "/N<=64", defines={"C01_NMAX": 64}, params={"num_detectors_per_ring": "symbolic even <= 64"})
